@@ -208,6 +208,12 @@ def run_write(li, acc):
             acc.case(nontrivial_key=("write", li, spec, bool(stack_kw)))
             try:
                 t1 = bibtexparser.write_string(lib, bibtex_format=fmt, **stack_kw)
+                try:  # a rejected write with the same format object in between
+                    from .. import hostile
+
+                    bibtexparser.write_string(hostile.libraries()[-5](), bibtex_format=fmt, **stack_kw)
+                except Exception:
+                    pass
                 t2 = bibtexparser.write_string(lib, bibtex_format=fmt, **stack_kw)
             except Exception as e:
                 acc.raised["write:" + type(e).__name__] += 1
@@ -228,7 +234,10 @@ def run_shard(shard, tier, acc):
     if shard[0] == "leak":
         # one long-lived instance over all libraries (forwards and backwards) must behave like fresh instances
         label, fac = POOL[shard[1]]
-        leak.run(fac, [(lambda i=i: base_library(i)) for i in range(NLIBS)], acc, label)
+        from .. import hostile
+
+        copy_mode = not label.startswith("SortBlocks") or True
+        leak.run(fac, [(lambda i=i: base_library(i)) for i in range(NLIBS)], acc, label, poison=hostile.libraries(), judge=leak.copy_judge)
         return
     _, li, mi = shard
     maxd = 2 if tier == "quick" else 3
